@@ -36,30 +36,78 @@ def _is_self_attr(node, attr):
             and node.value.id == "self")
 
 
-def _is_coro_method(node):
-    return isinstance(node, ast.Attribute) and node.attr in RESUMERS and _is_self_attr(node.value, "coro")
+class Aliases:
+    """Local names of one function that stand for `self.context`, `self.coro`, `self._resume` or a
+    bound method `self.coro.send/throw/close` (plain `name = <that>` assignments, each name
+    assigned once in the function)."""
+
+    def __init__(self, fn):
+        counts = {}
+        assigns = []
+        for n in ast.walk(fn):
+            if isinstance(n, ast.Assign) and len(n.targets) == 1 and isinstance(n.targets[0], ast.Name):
+                counts[n.targets[0].id] = counts.get(n.targets[0].id, 0) + 1
+                assigns.append(n)
+            elif isinstance(n, (ast.AugAssign, ast.AnnAssign, ast.NamedExpr, ast.For, ast.With)):
+                for t in ast.walk(n):
+                    if isinstance(t, ast.Name) and isinstance(t.ctx, ast.Store):
+                        counts[t.id] = counts.get(t.id, 0) + 2
+        self.context, self.coro, self.resume, self.method = set(), set(), set(), set()
+        self.defs = set()
+        changed = True
+        while changed:
+            changed = False
+            for n in assigns:
+                name = n.targets[0].id
+                if counts.get(name) != 1 or id(n) in self.defs:
+                    continue
+                v = n.value
+                for kind, test in (("context", self.is_context), ("coro", self.is_coro), ("resume", self.is_resume),
+                                   ("method", self.is_coro_method)):
+                    if test(v):
+                        getattr(self, kind).add(name)
+                        self.defs.add(id(n))
+                        changed = True
+                        break
+
+    def is_context(self, node):
+        return _is_self_attr(node, "context") or (isinstance(node, ast.Name) and node.id in self.context)
+
+    def is_coro(self, node):
+        return _is_self_attr(node, "coro") or (isinstance(node, ast.Name) and node.id in self.coro)
+
+    def is_resume(self, node):
+        return _is_self_attr(node, "_resume") or (isinstance(node, ast.Name) and node.id in self.resume)
+
+    def is_coro_method(self, node):
+        if isinstance(node, ast.Attribute) and node.attr in RESUMERS and self.is_coro(node.value):
+            return True
+        return isinstance(node, ast.Name) and isinstance(node.ctx, ast.Load) and node.id in self.method
 
 
-def _cond(e):
+def _cond(e, al):
     """condition on self.context -> Lean Bool text over (ctx : Option Mapping) (nonEmpty : Bool)"""
     if isinstance(e, ast.UnaryOp) and isinstance(e.op, ast.Not):
-        return f"(!{_cond(e.operand)})"
-    if isinstance(e, ast.Compare) and len(e.ops) == 1 and _is_self_attr(e.left, "context") \
-            and isinstance(e.comparators[0], ast.Constant) and e.comparators[0].value is None:
-        if isinstance(e.ops[0], (ast.IsNot, ast.NotEq)):
-            return "ctx.isSome"
-        if isinstance(e.ops[0], (ast.Is, ast.Eq)):
-            return "ctx.isNone"
-    if _is_self_attr(e, "context"):
+        return f"(!{_cond(e.operand, al)})"
+    if isinstance(e, ast.Compare) and len(e.ops) == 1:
+        l, r = e.left, e.comparators[0]
+        if isinstance(l, ast.Constant) and l.value is None:
+            l, r = r, l
+        if al.is_context(l) and isinstance(r, ast.Constant) and r.value is None:
+            if isinstance(e.ops[0], (ast.IsNot, ast.NotEq)):
+                return "ctx.isSome"
+            if isinstance(e.ops[0], (ast.Is, ast.Eq)):
+                return "ctx.isNone"
+    if al.is_context(e):
         # truth value of a Context: it is a Mapping, an empty one is falsy
         return "(ctx.isSome && nonEmpty)"
     if isinstance(e, ast.BoolOp):
         op = " && " if isinstance(e.op, ast.And) else " || "
-        return "(" + op.join(_cond(v) for v in e.values) + ")"
+        return "(" + op.join(_cond(v, al) for v in e.values) + ")"
     raise Unsupported(f"_resume: condition {ast.dump(e)[:80]}")
 
 
-def _ret(e, method, star):
+def _ret(e, method, star, al):
     """returned expression of _resume -> Lean"""
     def args_ok(call, first=None):
         a = list(call.args)
@@ -71,31 +119,34 @@ def _ret(e, method, star):
                 and a[0].value.id == star and not call.keywords)
     if isinstance(e, ast.Call):
         f = e.func
-        if isinstance(f, ast.Attribute) and f.attr == "run" and _is_self_attr(f.value, "context") and args_ok(e, method):
+        if isinstance(f, ast.Attribute) and f.attr == "run" and al.is_context(f.value) and args_ok(e, method):
             return "runIn ctx cur f"
         if isinstance(f, ast.Name) and f.id == method and args_ok(e):
             return "plain ctx cur f"
     if isinstance(e, ast.IfExp):
-        return f"(if {_cond(e.test)} then {_ret(e.body, method, star)} else {_ret(e.orelse, method, star)})"
+        return (f"(if {_cond(e.test, al)} then {_ret(e.body, method, star, al)} "
+                f"else {_ret(e.orelse, method, star, al)})")
     raise Unsupported(f"_resume: returned expression {ast.dump(e)[:90]}")
 
 
-def _resume_body(stmts, method, star, locals_, depth=1):
+def _resume_body(stmts, method, star, al, depth=1):
     ind = "  " * depth
     if not stmts:
         raise Unsupported("_resume may fall off its end")
     s, rest = stmts[0], stmts[1:]
     if isinstance(s, ast.Expr) and isinstance(s.value, ast.Constant):
-        return _resume_body(rest, method, star, locals_, depth)
+        return _resume_body(rest, method, star, al, depth)
+    if isinstance(s, ast.Assign) and id(s) in al.defs and isinstance(s.targets[0], ast.Name) \
+            and s.targets[0].id in al.context:
+        return _resume_body(rest, method, star, al, depth)          # `ctx = self.context`
     if isinstance(s, ast.Return) and s.value is not None:
-        return ind + _ret(s.value, method, star)
+        return ind + _ret(s.value, method, star, al)
     if isinstance(s, ast.If):
-        c = _cond(s.test)
-        then = _resume_body(s.body, method, star, locals_, depth + 1)
-        other = _resume_body((s.orelse or []) + rest if not _returns(s.orelse) else s.orelse,
-                             method, star, locals_, depth + 1)
+        c = _cond(s.test, al)
         if not _returns(s.body):
             raise Unsupported("_resume: branch without return")
+        then = _resume_body(s.body, method, star, al, depth + 1)
+        other = _resume_body(s.orelse if _returns(s.orelse) else (s.orelse or []) + rest, method, star, al, depth + 1)
         return f"{ind}if {c} then\n{then}\n{ind}else\n{other}"
     raise Unsupported(f"_resume: statement {type(s).__name__}")
 
@@ -138,40 +189,40 @@ def _entry_of(fn_name, path):
     return None
 
 
-def _walk(node, path, found):
-    """collect (path, node, wrapped?) for every `self.coro.<send|throw|close>` below `node`"""
+def _walk(node, path, found, al):
+    """collect (path, wrapped?) for every use of `self.coro.<send|throw|close>` below `node`"""
+    if isinstance(node, ast.Assign) and id(node) in al.defs:
+        return                                   # the definition of an alias is not a use
     if isinstance(node, ast.Call):
         f = node.func
-        wrapped_first = (isinstance(f, ast.Attribute) and f.attr == "_resume" and isinstance(f.value, ast.Name)
-                         and f.value.id == "self" and node.args and _is_coro_method(node.args[0]))
-        if wrapped_first:
+        if al.is_resume(f) and node.args and al.is_coro_method(node.args[0]):
             found.append((list(path), True))
             for a in node.args[1:]:
-                _walk(a, path, found)
+                _walk(a, path, found, al)
             return
-    if _is_coro_method(node):
+    if al.is_coro_method(node):
         found.append((list(path), False))
         return
     if isinstance(node, ast.Try):
         for s in node.body:
-            _walk(s, path + [("try-body", node)], found)
+            _walk(s, path + [("try-body", node)], found, al)
         for h in node.handlers:
             for s in h.body:
-                _walk(s, path + [("handler", h)], found)
+                _walk(s, path + [("handler", h)], found, al)
         for s in node.orelse:
-            _walk(s, path + [("try-else", node)], found)
+            _walk(s, path + [("try-else", node)], found, al)
         for s in node.finalbody:
-            _walk(s, path + [("finally", node)], found)
+            _walk(s, path + [("finally", node)], found, al)
         return
     if isinstance(node, ast.If):
-        _walk(node.test, path, found)
+        _walk(node.test, path, found, al)
         for s in node.body:
-            _walk(s, path + [("if", node)], found)
+            _walk(s, path + [("if", node)], found, al)
         for s in node.orelse:
-            _walk(s, path + [("else", node)], found)
+            _walk(s, path + [("else", node)], found, al)
         return
     for child in ast.iter_child_nodes(node):
-        _walk(child, path, found)
+        _walk(child, path, found, al)
 
 
 FIELDS = ["start", "send", "throw", "genexit", "reuse", "athrow", "sthrow", "sclose"]
@@ -190,15 +241,16 @@ def generate(src: Path) -> dict:
     a = rs.args
     if len(a.args) != 2 or a.vararg is None or a.kwarg or a.kwonlyargs:
         raise Unsupported("_resume signature is not (self, method, *args)")
-    resume = _resume_body(rs.body, a.args[1].arg, a.vararg.arg, {})
+    resume = _resume_body(rs.body, a.args[1].arg, a.vararg.arg, Aliases(rs))
     # --- every resumption of the coroutine, per entry point
     wrapped = {f: [] for f in FIELDS}
     for name, fn in methods.items():
         if name == "_resume":
             continue
         found = []
+        al = Aliases(fn)
         for s in fn.body:
-            _walk(s, [], found)
+            _walk(s, [], found, al)
         for path, w in found:
             entry = _entry_of(name, path)
             if entry is None:
@@ -220,7 +272,15 @@ def generate(src: Path) -> dict:
         if len(calls) != 1:
             raise Unsupported(f"{fn_name}: exactly one CoroStart(...) expected")
         kw = [k for k in calls[0].keywords if k.arg == "context"]
-        return kw[0].value if kw else None
+        v = kw[0].value if kw else None
+        if isinstance(v, ast.Name):
+            # a local assigned exactly once in the function stands for its value
+            defs = [n for n in ast.walk(fn) if isinstance(n, ast.Assign) and len(n.targets) == 1
+                    and isinstance(n.targets[0], ast.Name) and n.targets[0].id == v.id]
+            params = {x.arg for x in fn.args.args + fn.args.kwonlyargs}
+            if len(defs) == 1 and v.id not in params:
+                v = defs[0].value
+        return v
 
     ce = ctor_context("coro_eager")
     eager = (isinstance(ce, ast.Call) and isinstance(ce.func, ast.Name) and ce.func.id == "copy_context"
